@@ -5,7 +5,10 @@
 
 use crate::ast::*;
 use crate::build_checks::{reduce_static, ProgReplay};
+use crate::c16dyn;
 use crate::campaign::{self, draw_programs};
+use crate::hist;
+use proptest::strategy::{Strategy, ValueTree};
 use crate::evidence::{self, Evidence, KnownFindings};
 use crate::pipeline::{self, CliOpts, THEORY};
 use crate::print;
@@ -265,6 +268,12 @@ pub fn run_c16(tier: &str, seed: u64) -> campaign::CampaignResult {
             }
             Ok(false) => ev.count("rejected", 1),
             Err(msg) => {
+                if violations >= 3 {
+                    ev.count("further_violations_not_minimised", 1);
+                    violations += 1;
+                    let _ = msg;
+                    continue;
+                }
                 let reduced = reduce_static(&pc.program, 30, &|q| c16_one(&print::plain(q), &mut C16Stats::default()).is_err());
                 let src = print::plain(&reduced);
                 let msg2 = c16_one(&src, &mut C16Stats::default()).err().unwrap_or_else(|| msg.clone());
@@ -281,11 +290,113 @@ pub fn run_c16(tier: &str, seed: u64) -> campaign::CampaignResult {
             }
         }
     }
+    // ---- dynamic part: execute the emitted rule functions on states with a known new/old split
+    let (nd, nh) = if tier == "thorough" { (800, 200) } else { (48, 60) };
+    let nd = std::env::var("EQV_NDYN").ok().and_then(|v| v.parse().ok()).unwrap_or(nd);
+    let dyn_profiles: Vec<String> = vec!["surjective".into(), "stratified".into(), "medium".into(), "free".into(), "with_enums".into()];
+    let dprogs = draw_programs(seed ^ 0x16d, &dyn_profiles, nd);
+    let items: Vec<(&Program, &str)> = dprogs.iter().map(|pc| (&pc.program, pc.source.as_str())).collect();
+    let builts = pipeline::build_all(&items, pipeline::Mode::Module);
+    let dyn_results: Vec<(Option<(Vec<hist::Op>, String)>, c16dyn::DynStats, bool, Option<String>)> = dprogs
+        .par_iter()
+        .zip(builts.into_par_iter())
+        .map(|(pc, built)| {
+            let mut st = c16dyn::DynStats::default();
+            let built = match built {
+                Ok(b) => b,
+                Err(_) => return (None, st, false, None),
+            };
+            let mut runner = crate::pt::runner(seed, 5000 + pc.index as u64);
+            let strat = hist::history_strategy(26);
+            let hs: Vec<Vec<hist::Op>> = (0..nh).map(|_| strat.new_tree(&mut runner).expect("history").current()).collect();
+            match c16dyn::run_dyn(&pc.program, &built.module_text, &built.exe, &hs, &mut st) {
+                Ok(None) => (None, st, true, None),
+                Ok(Some((hi, msg))) => {
+                    // shrink the history: greedy deletion of operations
+                    let mut h = hs[hi].clone();
+                    let fails = |h: &Vec<hist::Op>| matches!(c16dyn::run_dyn(&pc.program, &built.module_text, &built.exe, &[h.clone()], &mut c16dyn::DynStats::default()), Ok(Some(_)));
+                    let mut i = 0;
+                    while i < h.len() {
+                        let mut c = h.clone();
+                        c.remove(i);
+                        if fails(&c) {
+                            h = c;
+                        } else {
+                            i += 1;
+                        }
+                    }
+                    (Some((h, msg)), st, true, None)
+                }
+                Err(e) => (None, st, true, Some(e)),
+            }
+        })
+        .collect();
+    let mut dyn_total = c16dyn::DynStats::default();
+    for (pc, (fail, st, built, infra)) in dprogs.iter().zip(dyn_results.iter()) {
+        if !*built {
+            ev.count("dyn.programs_not_built", 1);
+            continue;
+        }
+        ev.count("dyn.programs", 1);
+        if let Some(e) = infra {
+            ev.count(&format!("dyn.inconclusive: {}", e.chars().take(60).collect::<String>()), 1);
+        }
+        dyn_total.merge(st);
+        if st.decisive_states > 0 {
+            ev.sample(json!({"dynamic": true, "program": pc.source}), 4);
+        }
+        if let Some((h, msg)) = fail {
+            if violations >= 3 {
+                ev.count("further_violations_not_minimised", 1);
+                violations += 1;
+                continue;
+            }
+            let reduced = campaign::reduce_program_with(&pc.program, 30, &|q, _rules, b| {
+                matches!(c16dyn::run_dyn(q, &b.module_text, &b.exe, &[h.clone()], &mut c16dyn::DynStats::default()), Ok(Some(_)))
+            });
+            let src = print::plain(&reduced);
+            let (msg2, script) = match pipeline::build_driver(&reduced, &src, pipeline::Mode::Module) {
+                Ok(b) => (
+                    match c16dyn::run_dyn(&reduced, &b.module_text, &b.exe, &[h.clone()], &mut c16dyn::DynStats::default()) {
+                        Ok(Some((_, m))) => m,
+                        _ => msg.clone(),
+                    },
+                    hist::script(&c16dyn::render_dyn(&reduced, h)),
+                ),
+                Err(_) => (msg.clone(), String::new()),
+            };
+            let rep = ProgReplay { kind: "c16".into(), property: "C16".into(), program: Some(reduced), source: src, message: msg2, detail: json!({"history": h, "script": script}), seed };
+            let sig = format!("C16:{}", rep.message.chars().map(|c| if c.is_ascii_digit() { '#' } else { c }).take(90).collect::<String>());
+            if let Some(k) = known.known("C16", &sig) {
+                println!("KNOWN-FINDING: property=C16 {}", k.what);
+                continue;
+            }
+            let path = evidence::write_replay("C16", "dyn", &serde_json::to_value(&rep).unwrap());
+            eprintln!("violation of C16 (dynamic): {}", rep.message);
+            evidence::print_violation("C16", &path);
+            violations += 1;
+        }
+    }
+    ev.count("dyn.states_judged", dyn_total.states as u64);
+    ev.count("dyn.states_with_all_old_and_new_matches_of_a_multi_atom_family", dyn_total.decisive_states as u64);
+    ev.count("dyn.rule_invocations_compared", dyn_total.rule_invocations as u64);
+    ev.count("dyn.rule_invocations_skipped", dyn_total.rule_invocations_skipped as u64);
+    for (k, v) in &dyn_total.skipped_reasons {
+        ev.count(&format!("dyn.skipped: {}", k), *v as u64);
+    }
+    ev.count("dyn.families_evaluated", dyn_total.families as u64);
+    ev.count("dyn.matches_with_new_tuple", dyn_total.matches_with_new as u64);
+    ev.count("dyn.all_old_matches_present", dyn_total.matches_all_old as u64);
+    ev.count("dyn.pushes_compared", dyn_total.pushes as u64);
+    ev.evaluations += dyn_total.states as u64;
+    for s in &dyn_total.shapes {
+        ev.nontrivial.insert(util::hash64(&[b"dyn", s.as_bytes()]));
+    }
     for s in &shapes {
         ev.nontrivial.insert(util::hash64(&[s.as_bytes()]));
     }
     ev.extra.insert("programs".into(), json!(ev.evaluations));
-    ev.rule = "generated programs (all profiles) compiled by the repository CLI; every family of sub-rule functions in the emitted module is parsed (flat-rule comment + index fields read per premise position) and all 2^n new/old labellings of its n premise atoms are enumerated; non-trivial = family with n >= 2 atoms, distinct by (n, multiset of relation names)".into();
+    ev.rule = "static: generated programs (all profiles) compiled by the repository CLI; every family of sub-rule functions in the emitted module is parsed (flat-rule comment + index fields read per premise position) and all 2^n new/old labellings of its n premise atoms are enumerated; non-trivial = family with n >= 2 atoms, distinct by (n, multiset of relation names). dynamic: generated programs x proptest API histories; before every close, after every partial close_until and at the end the emitted rule functions of ONE loop iteration are executed into fresh ModelDeltas and the multiset of pushes of every rule is compared with a naive enumeration of its families' matches over the dumped new/old tables (each match with a new tuple once, all-old never); non-trivial = state in which a family with >= 2 atoms has both an all-old match and a match with a new tuple, distinct by (n, relation multiset)".into();
     ev.assumptions = vec!["the flat-rule comment lists the premise in the order the function joins it (position j <-> variables set<j>_*); checked to agree with the index fields actually read".into()];
     ev.violations = violations as u64;
     ev.wall_s = start.elapsed().as_secs_f64();
@@ -295,5 +406,14 @@ pub fn run_c16(tier: &str, seed: u64) -> campaign::CampaignResult {
 }
 
 pub fn replay_c16(rep: &ProgReplay) -> Result<Option<String>, String> {
+    if let Some(h) = rep.detail.get("history") {
+        let h: Vec<hist::Op> = serde_json::from_value(h.clone()).map_err(|e| e.to_string())?;
+        let p = rep.program.as_ref().ok_or("dynamic C16 replay without program")?;
+        let b = pipeline::build_driver(p, &rep.source, pipeline::Mode::Module).map_err(|e| format!("{:?}", e))?;
+        return match c16dyn::run_dyn(p, &b.module_text, &b.exe, &[h], &mut c16dyn::DynStats::default())? {
+            Some((_, m)) => Ok(Some(m)),
+            None => Ok(None),
+        };
+    }
     Ok(c16_one(&rep.source, &mut C16Stats::default()).err())
 }
